@@ -33,7 +33,9 @@ type faultDB struct {
 	mu sync.Mutex
 	// streams as the model pops them: one bit per ExecContext of a body / of a RestoreFunc
 	fs, rs     []bool
-	body, rest int // calls seen so far
+	body, rest int    // calls seen so far
+	qs         []bool // one bit per read of the state inside an open session (its tablesQuery fails)
+	reads      int
 	// open: Snapshot's inspection succeeded (its sqlite_master query was seen) and no statement of a
 	// RestoreFunc has been issued since. readOpen: its value when the last inspection of the
 	// tables began (tablesQuery) -- a failing read is a read *of the session* (after its
@@ -44,6 +46,7 @@ type faultDB struct {
 const (
 	faultBody    = "VERIF-FAULT-BODY"
 	faultRestore = "VERIF-FAULT-RESTORE"
+	faultRead    = "VERIF-FAULT-READ"
 )
 
 func isRestoreStmt(q string) bool {
@@ -80,6 +83,14 @@ func (f *faultDB) QueryContext(ctx context.Context, q string, args ...any) (*sql
 		f.open = true
 	case strings.Contains(q, "JOIN pragma_table_list(sqlite_master.name)"): // tablesQuery: an inspection begins
 		f.readOpen = f.open
+		if f.open { // a read of the session (Snapshot's own inspection is no op of a body)
+			fail := f.reads < len(f.qs) && f.qs[f.reads]
+			f.reads++
+			if fail {
+				f.mu.Unlock()
+				return nil, errors.New(faultRead)
+			}
+		}
 	}
 	f.mu.Unlock()
 	return f.db.QueryContext(ctx, q, args...)
@@ -228,7 +239,7 @@ func runAPI(c *tcase, tmpRoot string) (r result) {
 		r.err = err
 		return
 	}
-	fdb := &faultDB{db: db, fs: c.fs, rs: c.rs}
+	fdb := &faultDB{db: db, fs: c.fs, rs: c.rs, qs: c.qs}
 	drv, err := sqlite.Open(fdb)
 	if err != nil {
 		r.err = err
@@ -316,7 +327,7 @@ func runAPI(c *tcase, tmpRoot string) (r result) {
 	default:
 		r.output = nerr.Error()
 		r.restoreReported = strings.Contains(r.output, faultRestore)
-		if inspectErrRe.MatchString(r.output) {
+		if inspectErrRe.MatchString(r.output) || strings.Contains(r.output, faultRead) {
 			// no statement failed, a read of the state did (checked before the markers: the
 			// inspector quotes the CREATE statement, comment included)
 			if fdb.readOpen {
@@ -370,7 +381,7 @@ func runAPI(c *tcase, tmpRoot string) (r result) {
 	r.startObjs, r.startUser = objs, user
 	r.obs = fmt.Sprintf("out=%s same=%d empty=%d dirw=%d", r.outcome, b01(r.same), b01(r.empty), b01(r.dirw))
 	// for the generator: how many calls a fault-free run makes
-	r.bodyCalls, r.restCalls = fdb.body, fdb.rest
+	r.bodyCalls, r.restCalls, r.readCalls = fdb.body, fdb.rest, fdb.reads
 	return
 }
 
@@ -663,6 +674,16 @@ func genRunAPI(tier, tmpRoot string) ([]*tcase, []result) {
 			c := add(b.mk().setStart(st()), "fault-restore/"+b.name)
 			c.rs = upto(q)
 		}
+		// every read of the state inside a session hit by a fault (lost connection, I/O error between
+		// the last statement and the inspection), alone and with a failing statement of the restore
+		for q := 0; q < probes[i].readCalls; q++ {
+			c := add(b.mk().setStart(st()), "fault-read/"+b.name)
+			c.qs = upto(q)
+			for _, rs := range [][]bool{{true}, {false, true}, {false, false, false, true}} {
+				c := add(b.mk().setStart(st()), "fault-read+restore/"+b.name)
+				c.qs, c.rs = upto(q), rs
+			}
+		}
 	}
 	// 3. seeded random normalisation specs (as in round 1) with random fault positions
 	r := rng.FromEnv(0xC14A)
@@ -702,6 +723,9 @@ func genRunAPI(tier, tmpRoot string) ([]*tcase, []result) {
 		}
 		if r.Chance(1, 4) {
 			c.rs = upto(r.Intn(6))
+		}
+		if r.Chance(1, 4) {
+			c.qs = upto(r.Intn(3))
 		}
 		add(c, "random/"+c.cmd)
 	}
